@@ -146,3 +146,209 @@ def map_loop(fn_node, ordinal, accumulators, local_ok=()):
     return not problems, {"loop_line": loop.lineno, "iterates": ast.unparse(loop.iter), "target": ast.unparse(loop.target),
                           "accumulators": sorted(accumulators), "iteration_locals": sorted(stored - target_names - set(accumulators)),
                           "problems": problems}
+
+
+# =====================================================================================================================
+# Class-level frame inference: assigns(m) for the methods of a class, with aliases and transitive self-calls.
+INPLACE_METHODS = {"sort", "fill", "resize", "append", "update", "pop", "clear", "extend", "remove", "insert", "translate", "rotate",
+                   "transform", "setdefault", "popitem", "reverse", "itemset", "put", "partition", "setfield", "byteswap"}
+
+
+class MethodInfo:
+    def __init__(self, name):
+        self.name = name
+        self.writes = {}        # path -> first line
+        self.self_calls = {}    # method name -> [lines]
+        self.memo_sets = {}     # field -> line
+        self.memo_dels = {}     # field -> line
+        self.memo_guards = set()
+        self.decorators = []
+        self.returns = []
+
+
+class ClassFrames:
+    def __init__(self, mod, clsname):
+        self.mod = mod
+        self.cls = mod.classes[clsname]
+        self.methods = {}
+        self.props = set()
+        for n in self.cls.body:
+            if isinstance(n, ast.FunctionDef):
+                decos = [ast.unparse(d) for d in n.decorator_list]
+                if any(d.endswith(".setter") for d in decos):
+                    continue
+                self.methods[n.name] = n
+                if "property" in decos:
+                    self.props.add(n.name)
+        # alias properties: `return self.<path>`
+        self.alias_props = {}
+        for name in self.props:
+            body = [s for s in self.methods[name].body if not (isinstance(s, ast.Expr) and isinstance(s.value, ast.Constant))]
+            if len(body) == 1 and isinstance(body[0], ast.Return) and body[0].value is not None:
+                p = self._path(body[0].value, {})
+                if p and p.startswith("self."):
+                    self.alias_props[name] = p
+        self.info = {name: self._analyze(name) for name in self.methods}
+
+    # ---- path of an expression rooted at self (through local aliases) ----------------------------------------
+    def _path(self, e, aliases):
+        if isinstance(e, ast.Name):
+            if e.id == "self":
+                return "self"
+            return aliases.get(e.id)
+        if isinstance(e, ast.Attribute):
+            b = self._path(e.value, aliases)
+            if b is None:
+                return None
+            if b == "self" and e.attr in getattr(self, "alias_props", {}):
+                return self.alias_props[e.attr]
+            return b + "." + e.attr
+        if isinstance(e, ast.Subscript):
+            b = self._path(e.value, aliases)
+            if b is None:
+                return None
+            if isinstance(e.slice, ast.Constant) and isinstance(e.slice.value, str):
+                return f"{b}[{e.slice.value}]"
+            return b        # element/slice of the object at b: same object for frame purposes
+        if isinstance(e, ast.Call):
+            f = e.func
+            if isinstance(f, ast.Name) and f.id == "getattr" and len(e.args) >= 2 and isinstance(e.args[1], ast.Constant):
+                b = self._path(e.args[0], aliases)
+                return None if b is None else b + "." + str(e.args[1].value)
+            if isinstance(f, ast.Name) and f.id in ("enumerate", "sorted", "list", "tuple", "reversed", "zip", "iter") and e.args:
+                return self._path(e.args[0], aliases)      # elements alias the elements of the argument
+            if isinstance(f, ast.Attribute):
+                b = self._path(f.value, aliases)
+                if b == "self" and f.attr in self.memo_fillers():
+                    return "self." + self.memo_fillers()[f.attr]
+                if b is not None and f.attr in ("get", "values", "items", "keys", "view", "reshape", "ravel", "T", "squeeze"):
+                    if f.attr == "get" and e.args and isinstance(e.args[0], ast.Constant) and isinstance(e.args[0].value, str):
+                        return f"{b}[{e.args[0].value}]"
+                    return b
+        return None
+
+    def memo_fillers(self):
+        """method name -> memo field it fills (setattr(self, '<_field>', ...) and returns it)."""
+        if not hasattr(self, "_fillers"):
+            self._fillers = {}
+            for name, node in self.methods.items():
+                for n in ast.walk(node):
+                    if isinstance(n, ast.Call) and isinstance(n.func, ast.Name) and n.func.id == "setattr" and len(n.args) == 3 \
+                            and isinstance(n.args[0], ast.Name) and n.args[0].id == "self" and isinstance(n.args[1], ast.Constant) \
+                            and str(n.args[1].value).startswith("_"):
+                        self._fillers[name] = n.args[1].value
+        return self._fillers
+
+    def _analyze(self, name):
+        node = self.methods[name]
+        info = MethodInfo(name)
+        info.decorators = [ast.unparse(d) for d in node.decorator_list]
+        if not node.args.args or node.args.args[0].arg != "self":
+            return info
+        aliases = {}
+
+        def note_write(p, line, how):
+            if p and p.startswith("self") and p != "self":
+                info.writes.setdefault(p, (line, how))
+
+        def bind(target, path):
+            if isinstance(target, ast.Name):
+                if path:
+                    aliases[target.id] = path
+                else:
+                    aliases.pop(target.id, None)
+            elif isinstance(target, (ast.Tuple, ast.List)):
+                for el in target.elts:
+                    bind(el, path)
+
+        const_iters = {}
+        for st in ast.walk(node):
+            if isinstance(st, ast.For) and isinstance(st.target, ast.Name) and isinstance(st.iter, (ast.Tuple, ast.List)) \
+                    and all(isinstance(e, ast.Constant) and isinstance(e.value, str) for e in st.iter.elts):
+                const_iters[st.target.id] = [e.value for e in st.iter.elts]
+        # a linear pass in source order is enough for the alias approximation (aliases only grow)
+        for n in sorted((x for x in ast.walk(node) if hasattr(x, "lineno")), key=lambda x: (x.lineno, x.col_offset)):
+            if isinstance(n, ast.Assign):
+                p = self._path(n.value, aliases)
+                for t in n.targets:
+                    if isinstance(t, (ast.Name, ast.Tuple, ast.List)):
+                        bind(t, p if (p and p != "self") else None)
+                    else:
+                        note_write(self._path(t, aliases), n.lineno, "store")
+            elif isinstance(n, ast.AugAssign):
+                if isinstance(n.target, ast.Name):
+                    p = aliases.get(n.target.id)
+                    if p:
+                        note_write(p, n.lineno, "augmented assignment (in place for arrays/lists)")
+                else:
+                    note_write(self._path(n.target, aliases), n.lineno, "augmented store")
+            elif isinstance(n, ast.AnnAssign) and n.value is not None:
+                if not isinstance(n.target, ast.Name):
+                    note_write(self._path(n.target, aliases), n.lineno, "store")
+            elif isinstance(n, ast.For):
+                bind(n.target, self._path(n.iter, aliases))
+            elif isinstance(n, ast.comprehension):
+                bind(n.target, self._path(n.iter, aliases))
+            elif isinstance(n, ast.Delete):
+                for t in n.targets:
+                    p = self._path(t, aliases)
+                    if p and p.startswith("self._"):
+                        info.memo_dels[p[5:]] = n.lineno
+                    note_write(p, n.lineno, "del")
+            elif isinstance(n, ast.Call):
+                f = n.func
+                if isinstance(f, ast.Name) and f.id in ("setattr", "delattr") and n.args and self._path(n.args[0], aliases) == "self":
+                    if isinstance(n.args[1], ast.Constant):
+                        flds = [n.args[1].value]
+                    elif isinstance(n.args[1], ast.Name) and n.args[1].id in const_iters:
+                        flds = const_iters[n.args[1].id]
+                    else:
+                        flds = ["?"]
+                    for fld in flds:
+                        if f.id == "setattr":
+                            info.memo_sets[fld] = n.lineno
+                        else:
+                            info.memo_dels[fld] = n.lineno
+                        note_write("self." + str(fld), n.lineno, f.id)
+                elif isinstance(f, ast.Name) and f.id == "hasattr" and len(n.args) == 2 and self._path(n.args[0], aliases) == "self" \
+                        and isinstance(n.args[1], ast.Constant):
+                    info.memo_guards.add(n.args[1].value)
+                elif isinstance(f, ast.Attribute):
+                    b = self._path(f.value, aliases)
+                    if b == "self" and f.attr in self.methods and f.attr not in self.props:
+                        info.self_calls.setdefault(f.attr, []).append(n.lineno)
+                    elif b and b != "self" and f.attr in INPLACE_METHODS:
+                        if f.attr == "pop" and b.startswith("self.__dict__"):
+                            if n.args and isinstance(n.args[0], ast.Constant):
+                                info.memo_dels[n.args[0].value] = n.lineno
+                        note_write(b, n.lineno, f".{f.attr}() in place")
+                    for kw in n.keywords:
+                        if kw.arg == "out":
+                            note_write(self._path(kw.value, aliases), n.lineno, "out= argument")
+            elif isinstance(n, ast.Attribute) and isinstance(n.ctx, ast.Load):
+                b = self._path(n.value, aliases)
+                if b == "self" and n.attr in self.props and n.attr not in self.alias_props:
+                    info.self_calls.setdefault(n.attr, []).append(n.lineno)
+        return info
+
+    def closure_writes(self, name, seen=None):
+        """Transitive writes of method `name` through self-calls: path -> (method, line, how)."""
+        seen = seen if seen is not None else set()
+        if name in seen or name not in self.info:
+            return {}
+        seen.add(name)
+        out = {p: (name,) + v for p, v in self.info[name].writes.items()}
+        for callee in self.info[name].self_calls:
+            for p, v in self.closure_writes(callee, seen).items():
+                out.setdefault(p, v)
+        return out
+
+    def closure_calls(self, name, seen=None):
+        seen = seen if seen is not None else set()
+        if name in seen or name not in self.info:
+            return set()
+        seen.add(name)
+        out = set(self.info[name].self_calls)
+        for c in list(out):
+            out |= self.closure_calls(c, seen)
+        return out
